@@ -100,6 +100,8 @@ package fox
 //@   assume-at after (*Pool).Get#1 : pool-discipline: dyntypeIs(call_result, *cTx) && subCtxOK(ctxOf(call_result), c)
 //@   -- assumed: a walk on another pooled context leaves this context's buffers alone (the pool never hands out a context in use)
 //@   assume-at after lookupByPath#1 : sub-walk-frame: stackOK(c, host) && stackMono(c) && hasSkpNds == (len(*c.skipNds) > 0) && !released[box(c)] && (lazy ==> len(*c.params) <= old(len(*c.params)))
+//@   -- a hostname route is entered only when the whole host has been consumed by whole node keys (never a prefix of the host, never a prefix of a label)
+//@   assert-at call lookupByPath#1 : @C09,C01 whole-host: charsMatched == len(host) && charsMatchedInNodeFound == len(current.key) && same(arg_path, path) && arg_lazy == lazy
 //@   assert-at store-local n : @C01,C08,C09 first-candidate: n == nil && new_value != nil
 //@   assert-at store-local tsr : @C01,C08,C09 raised-once: !tsr && new_value
 //@   ensures @C16,C01 pool-balance: poolOut[&tree.ctx] == old(poolOut[&tree.ctx])
